@@ -23,6 +23,9 @@ type MergeCase struct {
 	Menu string `json:"menu"`
 	Mode uint32 `json:"mode"`
 	E    Expr   `json:"e"`
+	// Pre, if set, is a merge evaluated BEFORE E on the same leaf objects: every menu item
+	// (in the same provenance) is built once and used as input of both merges.
+	Pre *Expr `json:"pre,omitempty"`
 }
 
 func L(i int, opened bool) Expr { return Expr{Leaf: i + 1, Opened: opened} }
